@@ -372,6 +372,13 @@ func processorScenario(kind string, n int, c int) *explore.Scenario {
 				break
 			}
 		}
+		// group: one of the handlers may fail for every event it is given, whatever the others do with the same event
+		failing := ""
+		if kind == "group" {
+			if i := vs.Choose(regSize+1, 0, "handler that always fails"); i > 0 {
+				failing = fmt.Sprintf("h%d%s", i-1, registry[i-1])
+			}
+		}
 		// stream
 		type elem struct {
 			msg  *message.Message
@@ -413,7 +420,7 @@ func processorScenario(kind string, n int, c int) *explore.Scenario {
 				}
 			}
 			invs = append(invs, inv{handler, normalize(v), ok})
-			if isBad(v) {
+			if isBad(v) || handler == failing {
 				return errBad
 			}
 			return nil
@@ -499,7 +506,7 @@ func processorScenario(kind string, n int, c int) *explore.Scenario {
 		<-r.Running()
 		vs.Quiesce()
 
-		cfg := fmt.Sprintf("kind=%s generator=%s flag=%v registry=%v stream=", kind, generators[gen].name, flag, registry)
+		cfg := fmt.Sprintf("kind=%s generator=%s flag=%v registry=%v failing=%q stream=", kind, generators[gen].name, flag, registry, failing)
 		for _, e := range stream {
 			cfg += e.kind + ":" + normalize(e.val) + " "
 		}
@@ -530,7 +537,7 @@ func processorScenario(kind string, n int, c int) *explore.Scenario {
 					if e.val != nil && ht == e.kind {
 						matched = true
 						wantInv = append(wantInv, h+"<-"+normalize(e.val))
-						if isBad(e.val) {
+						if isBad(e.val) || h == failing {
 							failed = true
 							break // group: stop at the first error
 						}
